@@ -26,8 +26,9 @@ VARIABLES l,        \* next line to consume
           pos,      \* its abstract position
           lg,       \* Legal(pos) when some enabled check needs it
           usable,   \* the state has exactly one king per side (the definitions apply)
+          reach,    \* the current history started from a start-position constructor: its states are reachable by play
           nviol
-vars == <<l, cur, pos, lg, usable, nviol>>
+vars == <<l, cur, pos, lg, usable, reach, nviol>>
 
 ToB(arr) == [s \in Sq |-> arr[s+1]]
 PosOf(st) == [b |-> ToB(st.b), stm |-> st.stm, cr |-> st.cr, ep |-> st.ep, hmc |-> st.hmc, fmn |-> st.fmn]
@@ -55,12 +56,12 @@ Goto(st, ms0) ==
   /\ usable' = OneKingEach(p)
   /\ lg' = IF NeedLegal /\ OneKingEach(p) THEN Legal(p) ELSE {}
 \* an observation on the current state
-Obs(ms) == /\ Rep(ms) /\ nviol' = nviol + Cardinality(ms) /\ UNCHANGED <<cur, pos, lg, usable>>
+Obs(ms) == /\ Rep(ms) /\ nviol' = nviol + Cardinality(ms) /\ UNCHANGED <<cur, pos, lg, usable, reach>>
 
 (* ------------------------- state-changing events ------------------------- *)
-TraceReset == IsEvent("reset") /\ Goto(Recs[l].st, {})
+TraceReset == IsEvent("reset") /\ Goto(Recs[l].st, {}) /\ reach' = (Recs[l].src \in {"start960", "dfrc", "default"})
 
-TracePlay == /\ IsEvent("play")
+TracePlay == /\ UNCHANGED reach /\ IsEvent("play")
   /\ LET r == Recs[l]  m == r.m  logged == PosOf(r.st)  legal == m \in lg IN
      IF ~usable THEN Goto(r.st, {}) ELSE
      Goto(r.st,
@@ -74,7 +75,7 @@ TracePlay == /\ IsEvent("play")
           \cup IF_(C15 /\ r.res = "err" /\ r.api # "try", {<<"C15", "unexpected-result", r.api, m>>})
           \cup IF_(C15 /\ r.st # cur, {<<"C15", "board-changed-by-refused-move", m>>}))
 
-TraceNull == /\ IsEvent("null")
+TraceNull == /\ UNCHANGED reach /\ IsEvent("null")
   /\ LET r == Recs[l]  logged == PosOf(r.st)  ok == NullOk(pos) IN
      IF ~usable THEN Goto(r.st, {}) ELSE
      Goto(r.st,
@@ -87,12 +88,12 @@ TraceNull == /\ IsEvent("null")
           \cup IF_(C14 /\ r.res = "some" /\ OneKingEach(logged) /\ SetOfSeq(r.st.pin) # Pinned(logged), {<<"C14", "null-pinned", Pinned(logged), r.st.pin>>}))
 
 \* clock setters (beyond the listed properties): range check, nothing else moves
-TraceSetHmc == /\ IsEvent("sethmc")
+TraceSetHmc == /\ UNCHANGED reach /\ IsEvent("sethmc")
   /\ LET r == Recs[l]  okx == r.n <= 100
          exp == IF okx THEN [cur EXCEPT !.hmc = r.n] ELSE cur IN
      Goto(r.st, IF_(EXT /\ (r.res = "ok") # okx, {<<"EXT", "set-halfmove-range", r.n, r.res>>})
                 \cup IF_(EXT /\ r.st # exp, {<<"EXT", "set-halfmove-state", r.n>>}))
-TraceSetFmn == /\ IsEvent("setfmn")
+TraceSetFmn == /\ UNCHANGED reach /\ IsEvent("setfmn")
   /\ LET r == Recs[l]  okx == r.n > 0
          exp == IF okx THEN [cur EXCEPT !.fmn = r.n] ELSE cur IN
      Goto(r.st, IF_(EXT /\ (r.res = "ok") # okx, {<<"EXT", "set-fullmove-range", r.n, r.res>>})
@@ -165,12 +166,13 @@ TraceStatus == /\ IsEvent("status")
 \* a re-read of the board's own text: must succeed, be == and project to the same state
 RoundTrip(x, text, name, needAgain) ==
   IF_(x.k # "ok", {<<"C07", name \o "-rejected", x.k, x.again>>})
+  \cup IF_(C06 /\ reach /\ x.k # "ok", {<<"C06", "reachable-position-not-reaccepted-as-text", name, x.k, x.again>>})
   \cup IF_(x.k = "ok" /\ ~x.eq, {<<"C07", name \o "-not-equal">>})
   \cup IF_(x.k = "ok" /\ x.st # cur, {<<"C07", name \o "-state">>})
   \cup IF_(x.k = "ok" /\ needAgain /\ x.again # text, {<<"C07", name \o "-reformat", x.again>>})
 TraceText == /\ IsEvent("text")
   /\ LET r == Recs[l]  sf == CanonFen(pos, TRUE)  pf == CanonFen(pos, FALSE) IN
-     IF ~usable \/ ~C07 THEN Obs({}) ELSE
+     IF ~usable \/ ~(C07 \/ C06) THEN Obs({}) ELSE
      Obs(IF_(r.sfen # sf, {<<"C07", "shredder-text", sf, r.sfen>>})
          \cup IF_(r.fen # pf, {<<"C07", "fen-text", pf, r.fen>>})
          \cup RoundTrip(r.rs, r.sfen, "shredder", TRUE)
@@ -181,6 +183,7 @@ TraceRebuild == /\ IsEvent("rebuild")
   /\ LET r == Recs[l] IN
      IF ~usable THEN Obs({}) ELSE
      Obs(IF_((C09 \/ C06) /\ r.k # "ok", {<<"C09", "rebuild-rejected", r.k>>})
+         \cup IF_(C06 /\ reach /\ r.k # "ok", {<<"C06", "reachable-position-not-reaccepted-by-builder", r.k>>})
          \cup IF_((C09 \/ C03) /\ r.k = "ok" /\ (~r.eq \/ r.st # cur), {<<"C09", "rebuild-not-equal">>}))
 
 \* boards built from the same position by other routes / clocks / without ep
@@ -240,7 +243,7 @@ TraceAcc == /\ IsEvent("acc")
 \* the recorder gave up on a history because an unguarded library call panicked (corrupted board)
 TraceAborted == IsEvent("aborted") /\ Obs({})
 
-Init == /\ l = 1 /\ nviol = 0 /\ usable = FALSE /\ lg = {}
+Init == /\ l = 1 /\ nviol = 0 /\ usable = FALSE /\ lg = {} /\ reach = FALSE
         /\ pos = [b |-> EmptyBoard, stm |-> 0, cr |-> <<-1,-1,-1,-1>>, ep |-> -1, hmc |-> 0, fmn |-> 1]
         /\ cur = [b |-> <<>>, stm |-> 0, cr |-> <<-1,-1,-1,-1>>, ep |-> -1, hmc |-> 0, fmn |-> 1,
                   chk |-> <<>>, pin |-> <<>>, h |-> "", hn |-> ""]
